@@ -78,6 +78,14 @@ def perturbed_k(k, dk, M, pert):
         return base + 0.5 * dk
     if kind == 'rescale':
         return base * 1.01
+    if kind == 'reverse':             # the table stored high-k first: an exact permutation of the grid values
+        return base[::-1].copy()
+    if kind == 'swap':                # two neighbouring rows exchanged
+        out = base.copy()
+        j = pert[1]
+        if j + 1 < M:
+            out[j], out[j + 1] = base[j + 1], base[j]
+        return out
     if kind == 'nan':
         out = base.copy()
         if pert[1] == 'all':
@@ -100,6 +108,10 @@ def expected_ok(src, rel, pert, L):
         return False
     if src in ('array_k', 'file2'):
         if pert[0] in ('shift', 'rescale', 'outside', 'nan'):
+            return False
+        if pert[0] == 'reverse' and L > 1:
+            return False
+        if pert[0] == 'swap' and pert[1] + 1 < L:
             return False
     return True
 
@@ -159,6 +171,31 @@ def rank2_system(dom, omega_obj):
     s.omega['A', 'B'] = pyPRISM.omega.NoIntra()
     s.omega['B', 'B'] = omega_obj
     return s
+
+
+def rank3_tables(dom):
+    k = np.asarray(dom.k)
+    return {('A', 'A'): 1.0 + 2.0 / (1.0 + k ** 2), ('A', 'B'): 0.5 * np.exp(-0.3 * k), ('A', 'C'): -0.25 * np.sin(k) / (1.0 + k),
+            ('B', 'C'): 0.125 / (1.0 + 0.5 * k), ('C', 'C'): 1.0 + 7.0 * np.exp(-k * k)}
+
+
+def rank3_system(dom, omega_obj):
+    """Three types, SIX different tabulated entries (the entry under test in B-B): each pair must receive its own table."""
+    import pyPRISM
+    s = pyPRISM.System(['A', 'B', 'C'], kT=1.0)
+    s.domain = dom
+    for t, rho in RHO3.items():
+        s.density[t] = rho
+    s.diameter[['A', 'B', 'C']] = 1.0
+    s.closure[['A', 'B', 'C'], ['A', 'B', 'C']] = pyPRISM.closure.PercusYevick()
+    s.potential[['A', 'B', 'C'], ['A', 'B', 'C']] = pyPRISM.potential.HardSphere()
+    for key, tab in rank3_tables(dom).items():
+        s.omega[key] = pyPRISM.omega.FromArray(tab)
+    s.omega['B', 'B'] = omega_obj
+    return s
+
+
+RHO3 = {'A': 0.2, 'B': 0.3, 'C': 0.11}
 
 
 def tags(src, kind):
@@ -257,6 +294,22 @@ def case_one(rec, c):
                          tags(src, 'not-verbatim'))
             if not np.array_equal(still, vals0):
                 rec.fail(c, 'after createPRISM the table stored in the System no longer returns the supplied data', tags(src, 'not-verbatim'))
+        # rank 3: six different tables in one System, every pair of the exported matrix holds its own table x its site density
+        obj3_, _ = make_source(src, vals0, perturbed_k(k, dom.dk, M, pert), tag + 'r3')
+        try:
+            P = rank3_system(dom, obj3_).createPRISM()
+            rec.trans()
+            tabs = dict(rank3_tables(dom))
+            tabs[('B', 'B')] = vals0
+            for (a, b), tab in tabs.items():
+                site = RHO3[a] if a == b else RHO3[a] + RHO3[b]
+                for x, y in ((a, b), (b, a)):
+                    if not np.array_equal(P.omega[x, y], tab * site):
+                        rec.fail(c, 'rank-3 System with six different tabulated omegas: PRISM.omega[%s,%s] is not the table supplied for that pair times its site density' % (x, y),
+                                 tags(src, 'not-verbatim'))
+                        break
+        except Exception as e:
+            rec.fail(c, 'createPRISM of a rank-3 System with matching tabulated omegas raised %s: %s' % (type(e).__name__, str(e)[:80]), tags(src, 'rejected-valid'))
         verdict = 'verbatim'
     else:
         if True:
@@ -264,7 +317,7 @@ def case_one(rec, c):
             # the table), no PRISM object whose cost can be evaluated may come out of mismatching data.
             # (A one-column file of the wrong length may pass calculate() and be rejected here.)
             produced = []
-            for mk in (rank1_system, rank2_system):
+            for mk in (rank1_system, rank2_system, rank3_system):
                 obj2, _ = make_source(src, vals0, kcol0, tag + mk.__name__)
                 try:
                     P = mk(dom, obj2).createPRISM()
@@ -326,7 +379,7 @@ def cases_for(dspec, every_point):
                 continue
             perts = [['none']]
             if src in ('array_k', 'file2'):
-                perts += [['shift'], ['rescale'], ['nan', 'all'], ['nan', 0], ['nan', L // 2]]
+                perts += [['shift'], ['rescale'], ['nan', 'all'], ['nan', 0], ['nan', L // 2], ['reverse'], ['swap', 0], ['swap', L // 2], ['swap', max(0, L - 2)]]
                 if rel == 'equal':
                     pts = range(L) if every_point else sorted(set([0, 1, L // 2, L - 2, L - 1]))
                     for j in pts:
